@@ -7,7 +7,7 @@ sys.setrecursionlimit(100000)
 import frontend
 from frontend import Frontend, VERIF, REPO
 
-EVID = os.path.join(VERIF, 'evidence')
+EVID = os.environ.get('VF_EVIDENCE_DIR') or os.path.join(VERIF, 'evidence')   # VF_EVIDENCE_DIR: seed evaluations write elsewhere
 KNOWN = os.path.join(VERIF, 'known_findings.json')
 FE = None
 
